@@ -664,6 +664,39 @@ def run(ctx):
     rule_K2_plain(ctx)
     from . import c12
     sm_ = ctx.repo.mod('emg3d/simulations.py')
+    # gridding_opts may BE a mesh (gridding='input') or a dict of meshes
+    # (gridding='dict'): _set_model binds it to the grid attributes.  The
+    # file back ends write such objects as tagged dicts, and load() calls
+    # Simulation.from_dict before it looks at nested entries, so from_dict
+    # itself has to rebuild them
+    stm = sm_.method('Simulation', '_set_model')
+    gk = find("_g_ = kwargs.pop('gridding_opts', __)", stm)
+    ctx.anchor(len(gk) == 1, 'gridding_opts in Simulation._set_model')
+    G_ = gk[0][1]['_g_']
+    mesh_valued = has(f'self._grid_single = {G_}', stm) or has(
+        f'self._dict_grid = {G_}', stm)
+    fdm = sm_.method('Simulation', 'from_dict')
+    handled = False
+    for n_ in ast.walk(fdm):
+        if isinstance(n_, ast.Call) and ast.unparse(n_.func) in (
+                'io._dict_deserialize', 'meshes.TensorMesh.from_dict') and \
+                'gridding_opts' in ast.unparse(n_):
+            handled = True
+        if isinstance(n_, ast.Call) and ast.unparse(n_.func) == \
+                'io._dict_deserialize' and n_.args and isinstance(
+                    n_.args[0], ast.Name):
+            nm_ = n_.args[0].id
+            if any(isinstance(a_, ast.Assign) and ast.unparse(
+                    a_.targets[0]) == nm_ and 'gridding_opts' in
+                    ast.unparse(a_.value) for a_ in ast.walk(fdm)):
+                handled = True
+    ctx.check('C17.K2.accepted', 'Simulation.from_dict: gridding_opts '
+              'de-serialised', handled or not mesh_valued,
+              'gridding_opts can hold a TensorMesh (gridding=input) or a '
+              'dictionary of meshes (gridding=dict); after a save they are '
+              'tagged dicts, which from_dict hands to the constructor as '
+              'they are: the simulation cannot be loaded from any format',
+              ctx.where(sm_, fdm))
     c12.to_dict_tol(ctx, sm_, sm_.method('Simulation', 'to_dict'),
                     'C17.K2.plain')
     # the constructor keeps the data as given: no dtype cast of the data
